@@ -41,6 +41,23 @@ CHECKS = {
         note="1e-9*scale agreement in float64; evaluation mode only; pool rows avoid conditioner-dependent knots",
         ref="DESIGN.md 4/C12",
     ),
+    "C13": dict(
+        technique="stateless exhaustive exploration of all call histories up to a depth x argument kinds x modes on the real objects, with value/version-counter monitors on arguments and state snapshots after every call",
+        text="For every transform, distribution and flow, mode (eval/train) and argument kind (fresh, non-contiguous view, slice of a larger tensor, requires_grad leaf, "
+        "non-leaf), all histories of length <=2 (thorough <=3) over forward/inverse (log_prob, sample, sample_and_log_prob, transform_to_noise) are executed; after every "
+        "call the caller's tensors (and view bases) must be unchanged by value and version counter, in eval mode every parameter and buffer must be unchanged and a repeated "
+        "call must be bit-identical, in training mode only the documented normalisation statistics may change.",
+        note="sampling made reproducible by seeding before each call; calls that raise are allowed but must leave everything unchanged",
+        ref="DESIGN.md 4/C13",
+    ),
+    "C19": dict(
+        technique="bounded-exhaustive product exploration; oracle = float64 twin of the same model with a measured-conditioning accuracy band",
+        text="Every transform (both directions) and every flow/distribution log_prob is evaluated in float32 on the float32-rounded C01/C02 row alphabets for every configuration "
+        "(<=1 / <=2 deviations) and parameter pattern, and compared with a float64 deep copy of the same model: finite, no exception the twin does not raise, result dtype = input "
+        "dtype in both precisions, and error within 2^10*eps32*(1+|y|) + 4x the twin's own variation over a 64*eps32 neighbourhood of the input.",
+        note="moderate magnitudes: conditioner outputs capped at 4, sigmoid/logit pairs restricted to |T x| <= 4; cubic-spline and UMNN declared approximations added to the band",
+        ref="DESIGN.md 4/C19",
+    ),
     "C20": dict(
         technique="bounded-exhaustive enumeration of shapes/arguments (product explorer) against pure-Python reference models",
         text="Every exported helper is executed on the complete product of a small shape/argument alphabet (all shapes with <=3 dims "
